@@ -47,4 +47,94 @@ BootMem(now, disk)   == Lamport(now, disk)
 \* kanidmd start-up = QueryServer::new(now) followed by initialise_helper(now), which is ONE
 \* committed write transaction at `now`.
 BootInitCid(now, disk) == BeginCid(now, BootMem(now, disk))
+
+(***************************************************************************)
+(* B. COMMIT AS AN ORDERED LIST OF STEPS; FAULTS, CRASHES, ABANDON          *)
+(*    (C04, C05)                                                           *)
+(***************************************************************************)
+\* ----------------------------- B / L0 -----------------------------------
+\* What a reader can see of the representative transactions, as the driver projects it
+\* (record of strings).  Three groups of fields:
+\*   DiskFields  derived from stored entries only (also readable on a reopened server):
+\*               ent  = "<id>/<name>/<liveness>/<description>" of every data entry
+\*               sche / acpe / oae = the attribute-type / access-profile / OAuth2-client ENTRY exists
+\*               dne  = display name stored in the domain entry
+\*   BeFields    answered by indexes and lookup tables (name->uuid, equality index): idx
+\*   MemFields   server-wide settings held in memory:
+\*               sch = schema knows the attribute      acp = the access decision the profile grants
+\*               dn  = domain display name in use      oa  = OAuth2 client known to the IDM layer
+DiskFields == {"ent", "sche", "acpe", "oae", "dne"}
+BeFields   == {"idx"}
+MemFields  == {"sch", "acp", "dn", "oa"}
+DiskPart(v) == [f \in DiskFields |-> v[f]]
+DiffFields(a, b) == {f \in DOMAIN a : a[f] # b[f]}
+
+\* ----------------------------- B / L1 -----------------------------------
+\* C04: a transaction that did not report success leaves everything readers use exactly as it
+\* was - on the live server (pre = observation at Begin) and on a server reopened on the file.
+NoTrace(pre, live, reopen) == live = pre /\ reopen = DiskPart(pre)
+\* C05: after a crash at any point the reopened server shows the complete before state or the
+\* complete after state (never a mixture), passes its own consistency check, and the next change
+\* identifier is above every identifier it had committed (cmax = greatest stamped identifier
+\* found in the recovered database).
+BeforeOrAfter(rec, before, after) == rec = before \/ rec = after
+CrashOk(rec, before, after, verify, nextc, cmax) ==
+  /\ BeforeOrAfter(rec, before, after)
+  /\ verify = <<>>
+  /\ CidFresh(nextc, cmax)
+
+\* ----------------------------- B / L2 -----------------------------------
+\* IdmServerProxyWriteTransaction::commit followed by QueryServerWriteTransaction::commit,
+\* BackendWriteTransaction::commit and IdlArcSqliteWriteTransaction::commit, in program order.
+\* t = "P" publication of an in-memory cell (CowCell / ARCache commit, cannot fail)
+\* t = "S" storage point (may fail: returns an error, the remaining steps are skipped, every
+\*         unpublished write half is dropped and SQLite rolls back)
+\* t = "C" crash-only point (nothing can fail there, the process can die)
+St(t, c) == [t |-> t, c |-> c]
+CommitSteps == <<
+  St("S", "reload"),                       \* qs_write.reload(): a schema change reindexes (DDL + purge)
+  St("P", "apps"), St("P", "oauth2"), St("P", "credsess"), St("P", "o2prov"),   \* idm/server.rs commit
+  St("S", "ts_max"),                       \* be_txn.set_db_ts_max(cid.ts)
+  St("P", "cid"), St("P", "fcache"), St("P", "schema"), St("P", "dinfo"), St("P", "syscfg"),
+  St("P", "feature"), St("P", "phase"), St("P", "dyngroup"), St("P", "keys"), St("P", "acp"),
+  St("S", "ruv_del"), St("S", "ruv_add"),  \* be commit: write_db_ruv
+  St("S", "entries"), St("S", "idl"), St("S", "names"),     \* idl_arc_sqlite commit: flush dirty caches
+  St("S", "sql_commit"),
+  St("C", "post_commit"),
+  St("P", "be"),                           \* op_ts_max, name, idx_exists, idl, allids, maxid, keyhandles, entry caches
+  St("P", "ruv"), St("P", "idxmeta") >>
+NSteps == Len(CommitSteps)
+StepPos(c) == CHOOSE i \in 1..NSteps : CommitSteps[i].c = c
+PublishedBefore(i) == {CommitSteps[j].c : j \in {j \in 1..(i - 1) : CommitSteps[j].t = "P"}}
+
+\* name of an H2 storage point -> the step it belongs to
+StepOfPoint ==
+  [ purge_idxs |-> "reload", create_table |-> "reload", create_idx |-> "reload",
+    store_idx_slopes |-> "reload", set_db_version |-> "reload",
+    set_db_ts_max |-> "ts_max", write_db_ruv |-> "ruv_del", write_db_ruv_add |-> "ruv_add",
+    write_identry |-> "entries", delete_identry |-> "entries", write_idl |-> "idl",
+    write_name2uuid_add |-> "names", write_name2uuid_rem |-> "names",
+    write_externalid2uuid_add |-> "names", write_externalid2uuid_rem |-> "names",
+    write_uuid2spn |-> "names", write_uuid2rdn |-> "names",
+    sql_commit |-> "sql_commit", post_sql_commit |-> "post_commit" ]
+
+\* components a transaction kind changes (besides the data itself = "be")
+Kinds == {"create", "modify", "delete", "schema", "schemaidx", "acp", "oauth2", "domain"}
+Changed(kind) == CASE kind \in {"schema", "schemaidx"} -> {"schema", "cid", "be", "ruv", "idxmeta"}
+                   [] kind = "acp"    -> {"acp", "cid", "be", "ruv"}
+                   [] kind = "oauth2" -> {"oauth2", "cid", "be", "ruv"}
+                   [] kind = "domain" -> {"dinfo", "cid", "be", "ruv"}
+                   [] OTHER           -> {"cid", "be", "ruv"}
+\* the settings the property lists, and the observation field that probes each
+\* (key material has no probe in this driver; cid / filter cache / phase are not reader-visible settings)
+VisibleComps == {"schema", "acp", "dinfo", "oauth2"}
+FieldOf == [schema |-> "sch", acp |-> "acp", dinfo |-> "dn", oauth2 |-> "oa"]
+
+\* components already published when storage step number i fails
+AheadAt(kind, i) == Changed(kind) \cap PublishedBefore(i) \cap VisibleComps
+\* predicted observation on the live server after a failure at point `pt`
+PredictLive(kind, phase, pt, pre, post) ==
+  IF phase # "commit" \/ pt \notin DOMAIN StepOfPoint THEN pre
+  ELSE LET ahead == {FieldOf[c] : c \in AheadAt(kind, StepPos(StepOfPoint[pt]))}
+       IN  [f \in DOMAIN pre |-> IF f \in ahead THEN post[f] ELSE pre[f]]
 =============================================================================
